@@ -28,6 +28,15 @@ def lean_side(ctx, props, tie=None, specs=("e4_lookupd",)):
     for sp in specs:
         g, _ = ctx.gen(sp)
         ok_gen = ok_gen and g
+        if not g:
+            # never let a stale regenerated file satisfy the tie
+            import json
+            from framework import ROOT, LEAN
+            mod = json.load(open(os.path.join(ROOT, "specs", sp + ".json")))["module"].split(".")[-1]
+            try:
+                os.remove(os.path.join(LEAN, "Nsq", "Gen", mod + ".lean"))
+            except OSError:
+                pass
     ok, log = ctx.lean_build(tie + props)
     if not ok:
         ctx.lean_obligation_failed("lake build " + " ".join(tie + props), log[-1500:])
